@@ -521,4 +521,136 @@ theorem denote_spec : ∀ (e : OpExpr), e.RegNonneg = true → ∀ o, e.eval = .
     exact ⟨hw', he'.trans (Mat.Eqv.rowNormalized he)⟩
 
 end OpExpr
+/-! ### 2-d products and `safe_sparse_dot` -/
+
+/-- `operator.dot(X)` on a 2-d array (columns through `_matvec`) is the product by the dense matrix -/
+theorem Op.dotMat_eqv {o : Op} (hw : o.WF) {x y : Mat} (hy : o.dotMat x = .ok y) :
+    x.nRow = o.nCol ∧ Mat.Eqv y (o.dense.mul x) := by
+  obtain ⟨hr, hc⟩ := Op.dense_shape o hw
+  unfold Op.dotMat at hy
+  split at hy
+  · rename_i hx
+    cases hy
+    refine ⟨hx, by simp [Mat.ofCols, ← hr], by simp [Mat.ofCols], fun i k => ?_⟩
+    unfold Mat.ofCols
+    rw [Mat.get_ofFn, Mat.get_mul]
+    by_cases hik : i < o.nRow ∧ k < x.nCol
+    · simp only [hik, and_self, if_true]
+      rw [tab_getD, if_pos hik.2]
+      rw [Op.matvec_eq_dense o _ hw (by simp [Mat.col, hx]), Mat.vget_mulVec]
+      apply sumTo_congr; intro j hj
+      unfold Mat.col
+      rw [vget_tab]
+      have : j < x.nRow := by rw [hx, ← hc]; exact hj
+      simp [this]
+    · simp only [hik, if_false]
+      symm; apply sumTo_eq_zero; intro j _
+      by_cases hi : i < o.nRow
+      · have hk : x.nCol ≤ k := Nat.le_of_not_lt (fun c => hik ⟨hi, c⟩)
+        rw [Mat.get_of_col_ge j hk]; ring
+      · rw [Mat.get_of_row_ge j (by rw [hr]; exact Nat.le_of_not_lt hi)]; ring
+  · cases hy
+
+/-- the dense matrix of an operand of `safe_sparse_dot` -/
+def Operand.dense : Operand → Mat
+  | .ndarray m => m
+  | .csr m => m
+  | .op o => o.dense
+
+def Operand.WF : Operand → Prop
+  | .op o => o.WF
+  | _ => True
+
+/-- what a result of `safe_sparse_dot` denotes -/
+def DotResult.Denotes : DotResult → Mat → Prop
+  | .mat m, d => Mat.Eqv m d
+  | .op o, d => o.WF ∧ Mat.Eqv o.dense d
+  | .none, _ => False
+
+theorem transpose_mul_transpose (x y : Mat) (h : x.nCol = y.nRow) :
+    Mat.Eqv (y.transpose.mul x.transpose).transpose (x.mul y) :=
+  (Mat.Eqv.transpose (Mat.transpose_mul x y h).symm).trans (Mat.transpose_transpose _)
+
+/-- **safe_sparse_dot**: whatever branch is taken, a successful call returns the product of the two operands -/
+theorem safeSparseDot_denotes (a b : Operand) (ha : a.WF) (hb : b.WF) (r : DotResult)
+    (h : safeSparseDot a b = .ok r) : r.Denotes (a.dense.mul b.dense) := by
+  cases a with
+  | ndarray x =>
+    cases b with
+    | ndarray y =>
+      simp only [safeSparseDot] at h
+      obtain ⟨m, hm, h⟩ := bind_eq_ok h
+      have := pure_eq_ok h; subst this
+      obtain ⟨hd, rfl⟩ := Mat.mul?_ok hm
+      exact transpose_mul_transpose x y (by simpa using hd.symm)
+    | csr y =>
+      simp only [safeSparseDot] at h
+      obtain ⟨m, hm, h⟩ := bind_eq_ok h
+      have := pure_eq_ok h; subst this
+      obtain ⟨hd, rfl⟩ := Mat.mul?_ok hm
+      exact transpose_mul_transpose x y (by simpa using hd.symm)
+    | op o =>
+      simp only [safeSparseDot] at h
+      obtain ⟨t, ht, h⟩ := bind_eq_ok h
+      obtain ⟨m, hm, h⟩ := bind_eq_ok h
+      have := pure_eq_ok h; subst this
+      obtain ⟨htw, hte⟩ := Op.transpose_spec hb ht
+      obtain ⟨hx, hme⟩ := Op.dotMat_eqv htw hm
+      have hshape := Op.dense_shape t htw
+      have hdim : x.nCol = o.dense.nRow := by
+        have h1 : x.transpose.nRow = t.dense.nCol := by rw [hx, hshape.2]
+        rw [hte.nCol] at h1
+        simpa using h1
+      show Mat.Eqv m.transpose (x.mul o.dense)
+      refine (Mat.Eqv.transpose (hme.trans (Mat.Eqv.mul hte (Mat.Eqv.refl _)))).trans ?_
+      exact transpose_mul_transpose x o.dense hdim
+  | csr x =>
+    cases b with
+    | ndarray y =>
+      simp only [safeSparseDot] at h
+      obtain ⟨m, hm, h⟩ := bind_eq_ok h
+      have := pure_eq_ok h; subst this
+      obtain ⟨-, rfl⟩ := Mat.mul?_ok hm
+      exact Mat.Eqv.refl _
+    | csr y =>
+      simp only [safeSparseDot] at h
+      obtain ⟨m, hm, h⟩ := bind_eq_ok h
+      have := pure_eq_ok h; subst this
+      obtain ⟨-, rfl⟩ := Mat.mul?_ok hm
+      exact Mat.Eqv.refl _
+    | op o =>
+      cases o with
+      | slr s =>
+        simp only [safeSparseDot] at h
+        obtain ⟨m, hm, h⟩ := bind_eq_ok h
+        have := pure_eq_ok h; subst this
+        exact Op.leftDot_spec hb hm
+      | con c =>
+        simp only [safeSparseDot] at h
+        obtain ⟨m, hm, h⟩ := bind_eq_ok h
+        have := pure_eq_ok h; subst this
+        exact Op.leftDot_spec hb hm
+      | _ => simp only [safeSparseDot] at h; cases h
+  | op o =>
+    cases b with
+    | ndarray y =>
+      simp only [safeSparseDot] at h
+      obtain ⟨m, hm, h⟩ := bind_eq_ok h
+      have := pure_eq_ok h; subst this
+      exact (Op.dotMat_eqv ha hm).2
+    | csr y =>
+      cases o with
+      | slr s =>
+        simp only [safeSparseDot] at h
+        obtain ⟨m, hm, h⟩ := bind_eq_ok h
+        have := pure_eq_ok h; subst this
+        exact Op.rightDot_spec ha hm
+      | con c =>
+        simp only [safeSparseDot] at h
+        obtain ⟨m, hm, h⟩ := bind_eq_ok h
+        have := pure_eq_ok h; subst this
+        exact Op.rightDot_spec ha hm
+      | _ => simp only [safeSparseDot] at h; cases h
+    | op o' => simp only [safeSparseDot] at h; cases h
+
 end SkNet.LinOp
